@@ -14,9 +14,11 @@ import (
 	"os"
 	"os/exec"
 	"path/filepath"
+	"runtime"
 	"sort"
 	"strconv"
 	"strings"
+	"sync/atomic"
 	"time"
 
 	"verif.local/simrt"
@@ -261,7 +263,25 @@ func shard(o *opts) {
 	seen := map[uint64]bool{}
 	simrt.ResetCounters()
 	simrt.SimPools = true
+	// watchdog: a case that runs longer than 5 minutes of wall time is tool trouble
+	// (exit 2 with the case named), never a verdict
+	var curCase atomic.Int64
+	var curStart atomic.Int64
+	go func() {
+		for {
+			time.Sleep(5 * time.Second)
+			if st := curStart.Load(); st != 0 && time.Now().Unix()-st > 300 {
+				fmt.Fprintf(os.Stderr, "worker: WATCHDOG: %s case %d has been running for more than 300 s; giving up (exit 2)\n", o.prop, curCase.Load())
+				buf := make([]byte, 1<<16)
+				n := runtime.Stack(buf, true)
+				os.Stderr.Write(buf[:n])
+				os.Exit(2)
+			}
+		}
+	}()
 	for _, i := range idxs {
+		curCase.Store(int64(i))
+		curStart.Store(time.Now().Unix())
 		simrt.ResetPools()
 		out := ck.RunCase(c, i)
 		res.Cases++
